@@ -233,6 +233,7 @@ def check_tree(tree, spellings, env_rows, export_envs=99, with_model=False):
     pctpct = '%%' in _strip_quoted(T.canon(tree))  # x%% (also -x%% from (-(x%))%) is printed but not re-parsed: not asserted
     n_eval = 0
     seen_inputs, seen_values, exports = {}, {}, {}
+    wrapped_done = False
 
     def fail(sub, feats, detail, msg):
         fails.append(('%s|%s|%s' % (sub, feature_class(feats, detail), detail), msg))
@@ -252,6 +253,19 @@ def check_tree(tree, spellings, env_rows, export_envs=99, with_model=False):
         except Exception as ex:
             fail('parse', feats, type(ex).__name__, '%r does not parse: %s: %s' % (sp.text, type(ex).__name__, str(ex)[:80].replace('\n', ' ')))
             continue
+        # ---- the array-formula spelling {=body} of the same text is the same formula (first spelling of a case only)
+        if not wrapped_done and sp.text.startswith('='):
+            wrapped_done = True
+            labels.add('sp:array-wrapper')
+            try:
+                e_w = sut.Parser().ast('{' + sp.text + '}')[1][-1].get_expr
+            except sut.Watchdog:
+                raise
+            except Exception as ex:
+                fail('parse-wrapped', feats, type(ex).__name__, '%r does not parse although %r does: %s' % ('{' + sp.text + '}', sp.text, type(ex).__name__))
+            else:
+                if e_w != got_expr:
+                    fail('shape-wrapped', feats, op_pattern(sp.tokens), '%r parsed as %s but %r as %s' % ('{' + sp.text + '}', e_w, sp.text, got_expr))
         # ---- O1 shape
         shape_ok = True
         if not T.has_sign_run(feats):
